@@ -18,6 +18,7 @@ var loadTemplates = []string{
 	"Cannot redeclare directive %s.",
 	"Cannot have multiple schema entry points, consider schema extensions instead.",
 	"Schema root %s refers to a type %s that does not exist.",
+	"Schema root %s is defined more than once.",
 	"Undefined type \"%s\".",
 	"Undefined type %s.",
 	"%s type %s must be %s.",
@@ -129,6 +130,8 @@ type LoadCase struct {
 	Sources []string
 	Doc     string // merged document S-expression ("" on parse error)
 	GoObs   string // loaded schema S-expression, E,…, or PANIC:…
+	Expect  byte   // 0 none, 'v' valid by construction (must load), 'f' single injected fault (must be rejected)
+	Label   string // clause/variant of the injected fault
 }
 
 // CorrLoad: for each source set, `mergedoc` via Go, the S-expression to the driver's `load`,
@@ -272,68 +275,3 @@ var loadSeeds = []string{
 
 // RepoSnap is the repository tree the corpora are read from.
 const RepoSnap = "/repo"
-
-func init() {
-	Checks["X-load"] = func(c *Ctx) {
-		st := &LoadStats{Templates: map[string]int{}}
-		corpus := loadCorpus()
-		var sets [][]string
-		for _, s := range corpus {
-			sets = append(sets, []string{s})
-		}
-		cases := c.corrLoad(sets, st)
-		c.specLoad(cases)
-		fmt.Printf("corpus: %d schema inputs\n", len(corpus))
-		// tokenised corpus (only inputs that parse are worth mutating; keep all, the parser sorts it out)
-		var toks [][]sdlTok
-		for _, s := range corpus {
-			t := sdlTokens(s)
-			if len(t) > 0 && len(t) < 3000 {
-				toks = append(toks, t)
-			}
-		}
-		// split into 2–3 sources in random orders
-		sets = sets[:0]
-		for _, t := range toks {
-			for k := 0; k < 6; k++ {
-				sets = append(sets, splitSources(c.R, t, 2+k%2))
-			}
-		}
-		cases = c.corrLoad(sets, st)
-		c.specLoad(cases)
-		fmt.Printf("split: %d source sets\n", len(sets))
-		// random mutations
-		total := c.Pick(100000, 1000000)
-		if v := envIntL("XLOAD_N"); v > 0 {
-			total = v
-		}
-		batch := 5000
-		for done := 0; done < total; done += batch {
-			sets = sets[:0]
-			for i := 0; i < batch; i++ {
-				t := toks[c.R.Intn(len(toks))]
-				if c.R.Chance(1, 8) {
-					// combine two corpus inputs
-					t = append(cloneToks(t), toks[c.R.Intn(len(toks))]...)
-				}
-				nm := 1 + c.R.Intn(3)
-				if c.R.Chance(1, 10) {
-					nm += c.R.Intn(6)
-				}
-				for m := 0; m < nm; m++ {
-					t = mutateSDL(c.R, t)
-				}
-				if c.R.Chance(1, 4) {
-					sets = append(sets, splitSources(c.R, t, 2+c.R.Intn(2)))
-				} else {
-					sets = append(sets, []string{renderToks(c.R, t)})
-				}
-			}
-			cases = c.corrLoad(sets, st)
-			c.specLoad(cases)
-		}
-		st.Print()
-		c.specLoadSummary()
-		c.Ev.Evals = st.Cases
-	}
-}
